@@ -288,12 +288,16 @@ func copyDBIntoSQLite(source, destination *sql.DB,
 		return err
 	}
 	defer tx.Rollback()
-	deleteProfilesQueryStr := fmt.Sprintf("DELETE from user_profile ")
-	if rows, err := destination.Query(deleteProfilesQueryStr); err != nil {
+	// The destination becomes an exact copy: both tables are emptied inside the
+	// transaction, so that deletions in the source are mirrored and the whole
+	// copy is atomic.
+	if _, err := tx.Exec("DELETE from user_profile"); err != nil {
 		logger.Printf("err='%s'", err)
 		return err
-	} else {
-		rows.Close()
+	}
+	if _, err := tx.Exec("DELETE from expiring_signed_user_data"); err != nil {
+		logger.Printf("err='%s'", err)
+		return err
 	}
 	stmtText := saveUserProfileStmt[destinationType]
 	stmt, err := tx.Prepare(stmtText)
@@ -348,6 +352,10 @@ func copyDBIntoSQLite(source, destination *sql.DB,
 			logger.Printf("err='%s'", err)
 			return err
 		}
+	}
+	if err := genericRows.Err(); err != nil {
+		logger.Printf("err='%s'", err)
+		return err
 	}
 	err = tx.Commit()
 	if err != nil {
